@@ -42,6 +42,31 @@ def gen_cases(tier):
             cfgs = [([], True, None), ([], False, None), ([], True, [1]), ([], False, [3, 1]), ([], True, [1, 2, 3])]
             cases.append({"id": i + 1, "raw": {"kind": "random", "top": top, "div": div}, "cfgs": cfgs})
             continue
+        if i % 12 == 10:
+            # coefficients six orders of magnitude apart inside one substituted term (512 against 2^-11): the small one is no residue
+            K, e = rng.choice([512, 256]), rng.choice([2.0**-11, 2.0**-12])
+            top = {"inv": ["w"], "outv": ["y"], "a": [], "g": [({"y": 1, "w": -K}, 0)]}
+            div = {"inv": ["u"], "outv": ["y"], "a": [], "g": [({"y": -1}, 0), ({"y": 1, "u": -e}, 0)]}
+            if rng.random() < 0.5:
+                top["g"].append(({"w": -1}, 3))
+            cfgs = [([], True, None), ([], False, None), ([], True, gen.rorder(rng))]
+            cases.append({"id": i + 1, "raw": {"kind": "random", "top": top, "div": div}, "cfgs": cfgs})
+            continue
+        if i % 12 == 2:
+            # a dividend guarantee parallel to the divisor's but TIGHTER by a constant: refining it cancels every variable and leaves 0 <= -d,
+            # an impossible requirement, which must not be taken for "no requirement" (simplify off; the shared variable kept, or tactic 4 alone)
+            d_ = rng.choice([1, 2, 3])
+            base = rng.randint(0, 3)
+            if rng.random() < 0.5:
+                top = {"inv": ["x"], "outv": ["y", "w"], "a": [], "g": [({"y": 1, "x": -1}, base), ({"w": 1, "x": -1}, 0)]}
+                div = {"inv": ["x"], "outv": ["y"], "a": [], "g": [({"y": 1, "x": -1}, base + d_)]}
+                cfgs = [(["x"], False, None), (["x"], True, None), ([], False, [4]), (["x"], False, [4, 1])]
+            else:
+                top = {"inv": [], "outv": ["y", "w"], "a": [], "g": [({"y": 1}, base), ({"w": 1}, 1)]}
+                div = {"inv": ["u"], "outv": ["y"], "a": [], "g": [({"y": 1}, base + d_)]}
+                cfgs = [([], False, [4]), ([], False, None), ([], True, [4]), ([], False, [1, 4])]
+            cases.append({"id": i + 1, "raw": {"kind": "random", "top": top, "div": div}, "cfgs": cfgs})
+            continue
         if i % 12 == 7:
             # the divisor reads a variable v that is NOT a top-level input (the quotient has to drive it) and assumes something about v alone;
             # its other assumptions follow from the dividend's; its guarantee relaxes non-trivially onto the quotient's inputs
